@@ -191,6 +191,13 @@ def _call(args: Tuple[Callable[..., Part], Any]) -> Part:
         p.samples.append({"worker_error": f"{type(e).__name__}: {e}", "tb": traceback.format_exc()[-1500:],
                           "unit": repr(unit)[:300]})
         return p
+    finally:
+        em = sys.modules.get("odxmodel.emit")
+        if em is not None and os.getpid() != _MASTER_PID:
+            em.cleanup_scratch()
+
+
+_MASTER_PID = os.getpid()
 
 
 def pmap(ctx: Ctx, fn: Callable[[Any], Part], units: List[Any], chunksize: int = 1) -> None:
@@ -256,8 +263,9 @@ def write_evidence(ctx: Ctx, violations: int, known_hits: List[str]) -> str:
         "notes": ctx.notes,
         "repo": repo_root(),
     }
-    os.makedirs(os.path.join(VERIF, "evidence"), exist_ok=True)
-    path = os.path.join(VERIF, "evidence", f"{ctx.prop}.json")
+    evdir = os.path.join(VERIF, "evidence") if not os.environ.get("VERIF_NO_EVIDENCE") else os.path.join(VERIF, "scratch", "evidence_alt")
+    os.makedirs(evdir, exist_ok=True)
+    path = os.path.join(evdir, f"{ctx.prop}.json")
     tmp = path + ".tmp"
     with open(tmp, "w") as f:
         f.write(jdump(ev, indent=1))
@@ -350,7 +358,7 @@ def run_check(prop: str, tier: str) -> int:
             else:
                 new.append((key, case, detail))
         for key, case, detail in new:
-            d = os.path.join(VERIF, "replays", prop)
+            d = os.path.join(VERIF, "replays" if not os.environ.get("VERIF_NO_EVIDENCE") else "scratch/replays_alt", prop)
             os.makedirs(d, exist_ok=True)
             path = os.path.join(d, safe_name(key) + ".json")
             with open(path, "w") as f:
